@@ -571,6 +571,13 @@ def groups_for(meta, tier, seed):
         return [[d] for d in lat]
     N = T.n
     groups = []
+    # corner divisors first, so that the first group holds them whatever the time budget cuts later
+    w = T.bits
+    must = [1, 2, 3, 7, 10 & M(w), M(w), M(w) - 1, 1 << (w - 1), (1 << (w - 1)) - 1, 641 & M(w), (-2) & M(w), (-3) & M(w), (-7) & M(w), (1 << (w - 1)) + 1,
+            5, 6, 100 & M(w), 255 & M(w), 9, 11, 12, 13, 25]
+    inlat = set(lat)
+    head = list(dict.fromkeys(v for v in must if v in inlat))
+    lat = head + [v for v in lat if v not in set(head)]
     # every lattice value appears at least once, lanes of one group carry different divisors
     rot = lat + lat[:N]
     for i in range(0, len(lat), N):
@@ -578,6 +585,10 @@ def groups_for(meta, tier, seed):
         if len(g) < N:
             g = (g + lat)[:N]
         groups.append(g)
+    if N > 1 and groups:
+        # the same corner divisors once more, one lane further on: emulations treat even/odd lanes and 128-bit halves differently
+        g0 = groups[0]
+        groups.insert(1, g0[-1:] + g0[:-1])
     return groups
 
 
